@@ -76,7 +76,7 @@ func (o retryOp) line() string {
 
 func parseRetryOp(l string) (o retryOp, ok bool) {
 	ws := strings.Fields(l)
-	if len(ws) == 0 || ws[0] != "rt" {
+	if len(ws) == 0 || (ws[0] != "rt" && ws[0] != "rtx") {
 		return o, false
 	}
 	for _, w := range ws[1:] {
@@ -580,7 +580,45 @@ func runRetryOne(o retryOp) (ans, oracle string, witness bool, hits []string) {
 	return ans, oracle, witness, hits
 }
 
+// emitTxProbe runs a cluster batch that contains a MULTI … EXEC block. The block handling of
+// doresultfn is outside the model (see props/C28.json): the line is answered "probe" on both sides and
+// only the property itself is judged — a command that is neither read-only nor marked retryable must
+// not be sent twice unless a MOVED / ASK / errConnExpired reply lies in between.
+func emitTxProbe(c *Ctx, o retryOp) {
+	line := "rtx" + strings.TrimPrefix(o.line(), "rt")
+	ans, _, _, _ := runRetryOne(o)
+	c.Emit(line, "probe", true)
+	c.Hit("txprobe")
+	// ans: per command "<i>:s=<H/O…>:d=…:f=…"
+	redirected := false
+	for _, sc := range o.script {
+		if strings.ContainsAny(sc, "MAX") {
+			redirected = true
+		}
+	}
+	for _, part := range strings.Fields(ans) {
+		fs := strings.Split(part, ":")
+		if len(fs) < 2 {
+			continue
+		}
+		i, err := strconv.Atoi(fs[0])
+		if err != nil || i >= len(o.kinds) {
+			continue
+		}
+		sends := len(strings.TrimPrefix(fs[1], "s="))
+		if o.kinds[i] == 'w' && sends > 1 && !redirected {
+			c.Fail("retry:cluster-domulti:tx-block-resent-after-member-failure", line,
+				fmt.Sprintf("cluster DoMulti re-sent a whole MULTI…EXEC block (write command %d sent %d times, no MOVED/ASK) because a read-only member of the block failed with a retryable error: %s", i, sends, ans))
+			return
+		}
+	}
+}
+
 func emitRetry(c *Ctx, o retryOp) {
+	if len(o.kinds) > 0 && o.kinds[0] == 'M' {
+		emitTxProbe(c, o)
+		return
+	}
 	line := o.line()
 	ans, oracle, witness, hits := runRetryOne(o)
 	interesting := false
@@ -621,6 +659,10 @@ func runRetry(c *Ctx) {
 	emitRetry(c, retryOp{mode: "cl", api: "multi", kinds: []byte("rr"), delay: [][]int64{{0}, {-1}}, ctx: "bg", close: "none", script: []string{"M", "x"}})
 	emitRetry(c, retryOp{mode: "cl", api: "multi", kinds: []byte("rr"), delay: [][]int64{{0}, {-1}}, ctx: "bg", close: "none", script: []string{"x", "x"}})
 	emitRetry(c, retryOp{mode: "cl", api: "mcache", kinds: []byte("rr"), delay: [][]int64{{0}, {-1}}, ctx: "bg", close: "none", script: []string{"M", "L"}})
+	// ---- MULTI … EXEC blocks in a cluster batch (probe only; not modelled)
+	for _, sc := range [][]string{{"o", "o", "x", "x"}, {"o", "o", "x", "o"}, {"o", "o", "L", "o"}, {"o", "o", "e", "o"}, {"o", "o", "o", "o"}} {
+		emitRetry(c, retryOp{mode: "cl", api: "multi", kinds: []byte("MwrE"), delay: [][]int64{{0}, {0}, {0}, {0}}, ctx: "bg", close: "none", script: sc})
+	}
 	// ---- exhaustive: Do / DoCache, scripts of length <= 2
 	alpha := "oenLTCxaX"
 	var scripts []string
